@@ -159,11 +159,16 @@ def report(pid, tier, seed, m, sel, res, findings, cmd, t0, outdir):
     unknown = m.get("without_record", [])
     uname = set(k.split("::")[-1].split("@")[0] for k in unknown)
     leaning = set(k for k, f in m["functions"].items() if k not in unknown and uname & set(f.get("callees", [])))
-    moved = [f for f in mine if f["fn"] in leaning and not (f["clause"] or "").endswith("#typeinv.post")]
+    # (c) a failure *inside* a new private helper (not `pub`, not a trait method) means "this helper needs a contract"
+    # (its callers may only use it in states where it is safe), not "bug"
+    private_unknown = set(k for k in unknown if m["functions"].get(k, {}).get("vis", "") != "pub" and not m["functions"].get(k, {}).get("trait_impl"))
+    moved = [f for f in mine if (f["fn"] in leaning and not (f["clause"] or "").endswith("#typeinv.post")) or f["fn"] in private_unknown]
     if moved:
         mine = [f for f in mine if f not in moved]
         for f in moved:
-            f = dict(f, kind="tool", msg="%s (in a function that calls %s, which has no contract)" % (f["msg"], ", ".join(sorted(uname & set(m["functions"][f["fn"]].get("callees", []))))))
+            why = "in a new private function without contract" if f["fn"] in private_unknown else \
+                "in a function that calls %s, which has no contract" % ", ".join(sorted(uname & set(m["functions"][f["fn"]].get("callees", []))))
+            f = dict(f, kind="tool", msg="%s (%s)" % (f["msg"], why))
             undecided.append(f)
     for k in unknown:
         fk = m["functions"].get(k, {})
